@@ -10,3 +10,5 @@ Definition core_concrete := res_concrete.
 
 From Verif Require Import Core.Disj.
 Definition core_eval_disj := eval_disj.
+From Verif Require Import Core.DisjGen Core.Nest.
+Definition core_eval_nest := eval_nest.
